@@ -5,20 +5,23 @@ Import ListNotations.
 From TV Require Import Lib.Obs C41.Model C41.Spec C41.Run C41.Proofs1 C41.Proofs2 C41.Proofs3.
 Local Open Scope Z_scope.
 
+Section WithEk.
+Variable ek : nat * nat.   (* the exceptions os.fork / os.wait raise when their scripted results run out *)
+
 Section Accepted.
   Variables (np : option Z) (cpu : nat) (mr : option Z) (res : result).
-  Hypothesis ACC : spec_check None np cpu mr res = Accept.
+  Hypothesis ACC : spec_check ek None np cpu mr res = Accept.
   Let n := want_procs np cpu.
   Let B := want_budget mr.
 
   Lemma accepted_lifecycle :
     (forall i, (i < n)%nat ->
-       exists s, life SNot (proj i (r_trace res)) = Some s /\ life_post (r_out res) i s) /\
+       exists s, life SNot (proj i (r_trace res)) = Some s /\ life_post ek (r_out res) i s) /\
     (forall i, (n <= i)%nat -> proj i (r_trace res) = []).
   Proof.
-    destruct (spec_check_sound np cpu mr res ACC) as [tr [E [SI _]]]. rewrite E. split.
+    destruct (spec_check_sound ek np cpu mr res ACC) as [tr [E [SI _]]]. rewrite E. split.
     - intros i Hi. rewrite proj_other by reflexivity.
-      apply (SpecInit_life n B n 0%nat (fun _ => NotStarted) tr (r_out res) SI); auto.
+      apply (SpecInit_life ek n B n 0%nat (fun _ => NotStarted) tr (r_out res) SI); auto.
       intros j Hj. lia.
     - intros i Hi. rewrite proj_other by reflexivity.
       eapply SpecInit_no_stranger; eauto.
@@ -28,9 +31,9 @@ Section Accepted.
     (r_out res = OTooMany <-> abn (r_trace res) > Z.max 0 B) /\
     nforks (r_trace res) <= Z.of_nat n + Z.max 0 B.
   Proof.
-    destruct (spec_check_sound np cpu mr res ACC) as [tr [E [SI _]]]. rewrite E.
+    destruct (spec_check_sound ek np cpu mr res ACC) as [tr [E [SI _]]]. rewrite E.
     rewrite abn_cons, nforks_cons. cbn [is_abn_log is_fork].
-    pose proof (SpecInit_budget _ _ _ _ _ _ SI) as [I1 I2]. rewrite seq_length in I2.
+    pose proof (SpecInit_budget _ _ _ _ _ _ _ SI) as [I1 I2]. rewrite seq_length in I2.
     split; [rewrite I1; lia|lia].
   Qed.
 
@@ -39,8 +42,8 @@ Section Accepted.
     c = 0 /\ forall i, (i < n)%nat -> life SNot (proj i (r_trace res)) = Some SFin.
   Proof.
     intro E. split.
-    - destruct (spec_check_sound np cpu mr res ACC) as [tr [_ [SI _]]].
-      destruct (SpecInit_outcome _ _ _ _ _ _ _ SI eq_refl) as [I1 _]. eapply I1; eauto.
+    - destruct (spec_check_sound ek np cpu mr res ACC) as [tr [_ [SI _]]].
+      destruct (SpecInit_outcome _ _ _ _ _ _ _ _ SI eq_refl) as [I1 _]. eapply I1; eauto.
     - intros i Hi. destruct accepted_lifecycle as [L _].
       destruct (L i Hi) as [s [Ls [P1 _]]]. rewrite (P1 c E) in Ls. exact Ls.
   Qed.
@@ -49,8 +52,8 @@ Section Accepted.
     r_out res = OChild a t ->
     a = t /\ (a < n)%nat /\ r_task res = Some a /\ exists tr0, r_trace res = tr0 ++ [EFork a 0].
   Proof.
-    intro E. destruct (spec_check_sound np cpu mr res ACC) as [tr [Et [SI T]]].
-    destruct (SpecInit_outcome _ _ _ _ _ _ _ SI eq_refl) as [_ [I2 _]].
+    intro E. destruct (spec_check_sound ek np cpu mr res ACC) as [tr [Et [SI T]]].
+    destruct (SpecInit_outcome _ _ _ _ _ _ _ _ SI eq_refl) as [_ [I2 _]].
     destruct (I2 a t E) as [A1 [A2 [tr0 A3]]]. rewrite E in T. subst t.
     repeat split; auto. exists (EStart n :: tr0). rewrite Et, A3. reflexivity.
   Qed.
@@ -58,13 +61,13 @@ Section Accepted.
   Lemma accepted_parent_task :
     (forall a t, r_out res <> OChild a t) -> r_task res = None.
   Proof.
-    intro H. destruct (spec_check_sound np cpu mr res ACC) as [tr [_ [_ T]]].
+    intro H. destruct (spec_check_sound ek np cpu mr res ACC) as [tr [_ [_ T]]].
     rewrite T. destruct (r_out res); auto. exfalso. eapply H; eauto.
   Qed.
 
   Lemma accepted_logs : logs_ok None (r_trace res).
   Proof.
-    destruct (spec_check_sound np cpu mr res ACC) as [tr [E [SI _]]]. rewrite E.
+    destruct (spec_check_sound ek np cpu mr res ACC) as [tr [E [SI _]]]. rewrite E.
     simpl. eapply SpecInit_logs; eauto.
   Qed.
 End Accepted.
@@ -72,17 +75,17 @@ End Accepted.
 (* a wait result for a pid the supervisor does not know changes nothing *)
 Lemma unknown_pid_ignored maxr pid st ws fs ch nr :
   ch <> [] -> cm_find pid ch = None ->
-  supervise maxr ((pid, st) :: ws) fs ch nr = pre [EWait pid st] (supervise maxr ws fs ch nr).
+  supervise ek maxr ((pid, st) :: ws) fs ch nr = pre [EWait pid st] (supervise ek maxr ws fs ch nr).
 Proof. intros Hne F. rewrite supervise_cons by exact Hne. rewrite F. reflexivity. Qed.
 
 (* ---------- the model, for every input whose fork results are distinct ---------- *)
 Lemma model_meets_statement np cpu mr fs ws :
   NoDup (nz fs) ->
-  let res := fork_processes None np cpu mr fs ws in
+  let res := fork_processes ek None np cpu mr fs ws in
   let n := want_procs np cpu in
   let B := want_budget mr in
   (forall i, (i < n)%nat ->
-     exists s, life SNot (proj i (r_trace res)) = Some s /\ life_post (r_out res) i s) /\
+     exists s, life SNot (proj i (r_trace res)) = Some s /\ life_post ek (r_out res) i s) /\
   (forall i, (n <= i)%nat -> proj i (r_trace res) = []) /\
   (r_out res = OTooMany <-> abn (r_trace res) > Z.max 0 B) /\
   nforks (r_trace res) <= Z.of_nat n + Z.max 0 B /\
@@ -93,7 +96,7 @@ Lemma model_meets_statement np cpu mr fs ws :
   logs_ok None (r_trace res).
 Proof.
   intros ND res n B.
-  pose proof (accepted_when_fresh None np cpu mr fs ws ND) as ACC. fold res in ACC.
+  pose proof (accepted_when_fresh ek None np cpu mr fs ws ND) as ACC. fold res in ACC.
   pose proof (accepted_lifecycle np cpu mr res ACC) as [L1 L2].
   pose proof (accepted_budget np cpu mr res ACC) as [B1 B2].
   repeat split; auto.
@@ -112,7 +115,7 @@ Qed.
    colliding pids included: proved directly on the model *)
 Lemma supervise_budget maxr : forall ws fs ch nr,
   0 <= nr <= Z.max 0 maxr ->
-  let x := supervise maxr ws fs ch nr in
+  let x := supervise ek maxr ws fs ch nr in
   (snd x = OTooMany <-> nr + abn (fst x) > Z.max 0 maxr) /\ nr + nforks (fst x) <= Z.max 0 maxr.
 Proof.
   induction ws as [|[pid st] ws IH]; intros fs ch nr Hr; cbn zeta.
@@ -148,14 +151,14 @@ Proof.
 Qed.
 
 Lemma start_all_budget maxr ws : forall ids fs ch,
-  let x := start_all maxr ws ids fs ch in
+  let x := start_all ek maxr ws ids fs ch in
   (snd x = OTooMany <-> abn (fst x) > Z.max 0 maxr) /\
   nforks (fst x) <= Z.of_nat (length ids) + Z.max 0 maxr.
 Proof.
   induction ids as [|i ids IH]; intros fs ch; cbn zeta.
-  - cbn [start_all length]. destruct (supervise_budget maxr ws fs ch 0 ltac:(lia)) as [I1 I2].
+  - rewrite start_all_nil. cbn [length]. destruct (supervise_budget maxr ws fs ch 0 ltac:(lia)) as [I1 I2].
     split; [rewrite I1; lia|lia].
-  - cbn [start_all]. destruct fs as [|p fs'].
+  - rewrite start_all_cons. destruct fs as [|p fs'].
     { cbn [fst snd]. change (abn []) with 0; change (nforks []) with 0.
       split; [split; [discriminate|lia]|lia]. }
     destruct (p =? 0).
@@ -168,16 +171,18 @@ Proof.
 Qed.
 
 Lemma model_budget_all_inputs np cpu mr fs ws :
-  let res := fork_processes None np cpu mr fs ws in
+  let res := fork_processes ek None np cpu mr fs ws in
   (r_out res = OTooMany <-> abn (r_trace res) > Z.max 0 (want_budget mr)) /\
   nforks (r_trace res) <= Z.of_nat (want_procs np cpu) + Z.max 0 (want_budget mr).
 Proof.
-  cbn zeta. unfold fork_processes. cbn [r_out r_trace].
+  cbn zeta. rewrite fork_processes_None. cbn zeta. cbn [r_out r_trace].
   rewrite eff_procs_want, eff_budget_want, abn_cons, nforks_cons. cbn [is_abn_log is_fork].
   pose proof (start_all_budget (want_budget mr) ws (seq 0 (want_procs np cpu)) fs []) as H.
   cbn zeta in H. rewrite seq_length in H. destruct H as [I1 I2].
   split; [rewrite I1; lia|lia].
 Qed.
+
+End WithEk.
 
 Lemma status_macros st :
   WIFSIGNALED st = signaled st /\ WTERMSIG st = st mod 128 /\
@@ -190,3 +195,4 @@ Lemma abnormal_meaning :
   (forall c, 0 <= c < 256 -> abnormal (c * 256) = negb (c =? 0)) /\
   (forall s k, 1 <= s < 127 -> 0 <= k <= 1 -> abnormal (s + 128 * k) = true).
 Proof. split; [exact abnormal_exited|exact abnormal_signaled]. Qed.
+
